@@ -24,7 +24,8 @@ def pointeeOfName : String → Option CTy
   | "char" => some (.base .char) | "short" => some (.base .short) | "int" => some (.base .int)
   | "long" => some (.base .long) | "llong" => some (.base .llong) | "float" => some .float
   | "double" => some .double | "ptr" => some .ptr | "arr3" => some (.arr 3 (.base .int))
-  | "st12" => some (.struct [.base .char, .base .long, .ptr]) | _ => none
+  | "st12" => some (.struct [.base .char, .base .long, .ptr])
+  | "arr2x3" => some (.arr 2 (.arr 3 (.base .long))) | _ => none
 
 def formOfName : String → Option PtrForm
   | "add" => some .add | "sub" => some .sub | "addeq" => some .addEq | "subeq" => some .subEq
@@ -32,7 +33,7 @@ def formOfName : String → Option PtrForm
   | "postdec" => some .postDec | "idx" => some .idx | "addridx" => some .addrIdx | _ => none
 
 def sizesLine : String :=
-  ["char", "short", "int", "long", "llong", "float", "double", "ptr", "arr3", "st12"].foldl
+  ["char", "short", "int", "long", "llong", "float", "double", "ptr", "arr3", "st12", "arr2x3"].foldl
     (fun acc n => match pointeeOfName n with
       | some t => acc ++ s!"{n}={t.size abiA}/{t.size abiHost};"
       | none => acc) ""
